@@ -548,9 +548,29 @@ func TestVerifC04Admin(t *testing.T) {
 		}
 
 		// ---- phase 2: admitted mutating calls
-		for _, r := range reqs {
-			if r.mutating && r.want == "not401" {
-				check(r, w.do(r))
+		// The global patch goes last: applying it restarts every listener (the log level changed), and on a busy
+		// machine the freed port can be taken by another process before the Core listens again. Whatever is asked
+		// after such a restart and finds no listener is dropped, not judged.
+		var phase2 []c04Req
+		for _, last := range []bool{false, true} {
+			for _, r := range reqs {
+				if r.mutating && r.want == "not401" && strings.HasSuffix(r.path, "/config/global/patch") == last {
+					phase2 = append(phase2, r)
+				}
+			}
+		}
+		restarted := false
+		for _, r := range phase2 {
+			{
+				o := w.do(r)
+				if o.err != nil && restarted {
+					classes["dropped-after-listener-restart"] = true
+					break
+				}
+				check(r, o)
+				if strings.HasSuffix(r.path, "/config/global/patch") {
+					restarted = true
+				}
 				// an accepted edit is answered before it is applied, and applying it may restart the API listener:
 				// let the Core finish before the next call (a request caught by that restart is not this property's business)
 				core.Barrier()
